@@ -106,7 +106,11 @@ func fieldOffsets(fd *ast.FuncDecl) map[string][2]int {
 func genProtoConsts(repo string) (string, error) {
 	var b strings.Builder
 	b.WriteString("From Coq Require Import NArith.\nOpen Scope N_scope.\n")
-	d := func(name string, v interface{}) { fmt.Fprintf(&b, "Definition %s : N := %v.\n", name, v) }
+	var allNames []string
+	d := func(name string, v interface{}) {
+		fmt.Fprintf(&b, "Definition %s : N := %v.\n", name, v)
+		allNames = append(allNames, name)
+	}
 	// compiled-in constants
 	d("bolt_ProtocolCode", bolt.ProtocolCode)
 	d("bolt_RequestHeaderLen", bolt.RequestHeaderLen)
@@ -245,6 +249,9 @@ func genProtoConsts(repo string) (string, error) {
 		fmt.Fprintf(&b, "Definition http_min_method : N := %d.\nDefinition http_max_method : N := %d.\n", len("GET"), len("CONNECT"))
 		fmt.Fprintf(&b, "Definition h2_preface : list N := %s.\n", coqByteList([]byte(mhttp2.ClientPreface)))
 	}
+	// everything above in one value: Props compares it by conversion with the constants the model was proved about
+	// (Model/CodecParams.v), so nothing under Model/ or Proofs/ depends on this generated file
+	fmt.Fprintf(&b, "Definition ProtoConsts_all : list N * list (list N) * list N := ([%s], http_methods, h2_preface).\n", strings.Join(allNames, "; "))
 	fmt.Fprintf(&b, "Definition ProtoConsts_translator_ok := %v.\n", ok)
 	return b.String(), nil
 }
@@ -686,6 +693,7 @@ func genCodecSrc(repo string) (string, error) {
 	for _, k := range names {
 		fmt.Fprintf(&b, "Definition %s : bool := %v.\n", k, sw[k])
 	}
+	fmt.Fprintf(&b, "Definition CodecSrc_all : list bool * list N * list N := ([%s], tars_resp_types, tars_req_types).\n", strings.Join(names, "; "))
 	fmt.Fprintf(&b, "Definition CodecSrc_translator_ok := %v.\n", ok)
 	return b.String(), nil
 }
